@@ -82,9 +82,32 @@ def _sandwich_calls(b, refs, nm, den):
         yield dict(t=t), call
 
 
+HIST_ALPHA = {'build': 8, 'traverse': 14, 'views': 10, 'apply': 4,
+              'funcop': 2, 'drop': 6, 'gc': 3, 'swap': 5, 'sift': 2,
+              'reorder_to': 3, 'declare': 1, 'undeclare': 1,
+              'copy_handle': 1, 'churn': 1}
+
+
+def _hist_nontrivial(w):
+    return 'views' in w.nontrivial and bool(
+        w.nontrivial & {'swap', 'sift', 'reorder_to'})
+
+
 def plan(tier, seed):
     specs = []
     specs += fix.sandwich_specs(tier, seed)
+    # views in the middle of histories: handles created before a
+    # reordering are inspected again after it
+    cfgs = [dict(kind='autoref', nmax=4, init_vars=3),
+            dict(kind='autoref', nmax=5, init_vars=4),
+            dict(kind='bdd', nmax=4, init_vars=3),
+            dict(kind='autoref', nmax=5, init_vars=4, reordering=True,
+                 reorder_starts=8)]
+    for s_ in range(8 if tier == 'thorough' else 3):
+        specs.append(dict(kind='history', seed=seed * 1000 + 800 + s_,
+                          cfgs=cfgs,
+                          examples=1000 if tier == 'thorough' else 200,
+                          min_len=8, max_len=35))
     for n in (1, 2, 3):
         for order in fix.orders(n):
             specs.append(dict(kind='all', n=n, order=order, part=0, parts=1,
@@ -142,18 +165,12 @@ def eval_nx(g, root, bdd, nm, n):
         if not out:
             r = F
         else:
-            # parallel duplicates of the same edge (same target, same
-            # attributes) are tolerated: the statement asks that the
-            # graph evaluates to the function, not for an edge count
-            lo = sorted({(e[1], bool(e[2]['complement'])) for e in out
-                         if e[2]['value'] is False})
-            hi = sorted({(e[1], bool(e[2]['complement'])) for e in out
-                         if e[2]['value'] is True})
-            require(len(lo) == 1 and len(hi) == 1 and
-                    all(e[2]['value'] in (False, True) for e in out),
-                    'nx.edge_values', dict(u=u, lo=lo, hi=hi))
-            lo = [(u, lo[0][0], dict(complement=lo[0][1]))]
-            hi = [(u, hi[0][0], dict(complement=hi[0][1]))]
+            # exactly one else-edge and one then-edge
+            lo = [e for e in out if e[2]['value'] is False]
+            hi = [e for e in out if e[2]['value'] is True]
+            require(len(lo) == 1 and len(hi) == 1 and len(out) == 2,
+                    'nx.edge_values',
+                    dict(u=u, lo=len(lo), hi=len(hi), out=len(out)))
             tl = node(lo[0][1])
             if lo[0][2]['complement']:
                 tl = ~tl & F
@@ -408,12 +425,18 @@ def run_all(spec, out):
 
 
 def run(spec, out):
+    if spec['kind'] == 'history':
+        from .. import histprop as H_
+        return H_.run_random(spec, out, HIST_ALPHA, _hist_nontrivial)
     if spec['kind'] == 'sandwich':
         return fix.run_sandwich(spec, out, _sandwich_calls)
     run_all(spec, out)
 
 
 def replay_into(case, out):
+    if case.get('kind') == 'history':
+        from .. import histprop as H_
+        return H_.replay_into(case, out)
     if case.get('kind') == 'sandwich':
         return fix.run_sandwich({k: case[k] for k in (
             'kind', 'perturbation', 'pos', 'order', 'seed')}, out,
